@@ -239,7 +239,7 @@ func (p *Program) verifyUnit(ct *Contract, subst map[string]int64, suffix string
 		return p.cs.Frozen[g] && !p.cs.Grounds[g]
 	}
 	e := &Exec{c: c, prog: p, unit: u.Name, props: ct.Props, trusted: map[string]bool{}, kindCnt: map[string]int{},
-		safety: true, nilcheck: ct.NilCheck, nosplit: ct.NoSplit, abstractAll: ct.Abstract, inlines: ct.Inlines, pureCalls: ct.PureCalls, pureFacts: ct.PureFacts, divAbstract: ct.DivAbstract, ghost: map[string]Val{}, reveal: map[string]bool{}}
+		safety: true, nilcheck: ct.NilCheck, nosplit: ct.NoSplit, abstractAll: ct.Abstract, assumeCalls: ct.AssumeCalls, callOrd: map[string]int{}, inlines: ct.Inlines, pureCalls: ct.PureCalls, pureFacts: ct.PureFacts, divAbstract: ct.DivAbstract, ghost: map[string]Val{}, reveal: map[string]bool{}}
 	for _, r := range ct.Reveal {
 		e.reveal[r] = true
 	}
@@ -324,6 +324,9 @@ func (p *Program) verifyUnit(ct *Contract, subst map[string]int64, suffix string
 		v := env0.typed(e.evalSpec(g.Init, env0), t)
 		v.Typ = t
 		e.ghost[g.Name] = v
+		if len(v.L) == 1 {
+			entry["l:ghost."+g.Name] = v.T() // a cell from the start: loops see ghost updates as modifications
+		}
 	}
 	// requires
 	var reqs []Term
@@ -360,6 +363,9 @@ func (p *Program) verifyUnit(ct *Contract, subst map[string]int64, suffix string
 		return
 	}
 	e.safety = !ct.NoSafety
+	if ct.AssumeCalls {
+		e.trusted["callee preconditions are assumed in this unit (control-flow accounting only)"] = true
+	}
 	if ct.NoSafety {
 		e.trusted["implicit safety obligations (index, nil, division) are not generated for this unit: assumed"] = true
 	}
